@@ -57,26 +57,43 @@ Proof. intros H. apply map_opt_inv in H. induction H; simpl; congruence. Qed.
 (* ------------------------------------------------------------ quoted forms *)
 (* [qform u b]: u is a concatenation of urllib-quoted chunks (each under a safe set inside
    PATH_SAFE that does not contain '%') of the byte string b *)
-Inductive qform : text -> text -> Prop :=
-| qf_nil : qform [] []
+Inductive qformP (P : text -> bool) : text -> text -> Prop :=
+| qf_nil : qformP P [] []
 | qf_quote safe bs u b :
-    good_safe safe = true -> safe_sub safe = true -> Forall byte bs -> qform u b ->
-    qform (quote safe bs ++ u) (bs ++ b).
+    good_safe safe = true -> P safe = true -> Forall byte bs -> qformP P u b ->
+    qformP P (quote safe bs ++ u) (bs ++ b).
 
-Lemma qform_one safe bs : good_safe safe = true -> safe_sub safe = true -> Forall byte bs -> qform (quote safe bs) bs.
+(* [gsafe]: inside PATH_SAFE and containing '/', as every safe set of the generator does; [sform] is
+   the quoted form the generator produces, [qform] the weaker one that also covers extra elements
+   (PATH_SEGMENT_SAFE has no '/') *)
+Definition gsafe (safe : text) : bool := safe_sub safe && memN 47 safe.
+Notation qform := (qformP safe_sub).
+Notation sform := (qformP gsafe).
+
+Lemma qformP_weaken (P Q : text -> bool) u b : (forall s, P s = true -> Q s = true) -> qformP P u b -> qformP Q u b.
+Proof. intros HPQ. induction 1; constructor; auto. Qed.
+
+Lemma sform_qform u b : sform u b -> qform u b.
+Proof. apply qformP_weaken. unfold gsafe. intros s H. apply andb_true_iff in H. tauto. Qed.
+
+Lemma qform_one P safe bs : good_safe safe = true -> P safe = true -> Forall byte bs -> qformP P (quote safe bs) bs.
 Proof.
   intros. rewrite <- (app_nil_r (quote safe bs)). rewrite <- (app_nil_r bs) at 2.
   apply qf_quote; auto. constructor.
 Qed.
 
-Lemma qform_app u1 b1 u2 b2 : qform u1 b1 -> qform u2 b2 -> qform (u1 ++ u2) (b1 ++ b2).
+Lemma qform_app P u1 b1 u2 b2 : qformP P u1 b1 -> qformP P u2 b2 -> qformP P (u1 ++ u2) (b1 ++ b2).
 Proof.
   intros H1 H2. induction H1; [exact H2|]. rewrite <- !app_assoc. apply qf_quote; auto.
 Qed.
 
-Lemma qform_slash : qform [47] [47].
+Lemma gsafe_facts : gsafe compile_prefix_safe && gsafe compile_literal_safe && gsafe compile_value_safe && gsafe [47] = true.
+Proof. vm_compute. reflexivity. Qed.
+
+Lemma qform_slash : sform [47] [47].
 Proof.
   pose proof Facts_ok_safe_sets as HF. repeat (apply andb_true_iff in HF; destruct HF as [HF ?]).
+  pose proof gsafe_facts as HG. repeat (apply andb_true_iff in HG; destruct HG as [HG ?]).
   change [47] with (quote [47] [47]) at 1.
   apply qform_one; auto. repeat constructor.
 Qed.
@@ -89,7 +106,7 @@ Proof.
   fold (quote safe r). rewrite IH. reflexivity.
 Qed.
 
-Lemma qform_unquote u b : qform u b -> unquote u = b.
+Lemma qform_unquote P u b : qformP P u b -> unquote u = b.
 Proof.
   induction 1 as [|safe bs u b Hg _ Hb _ IH]; [reflexivity|].
   apply good_safe_spec in Hg. destruct Hg as [_ H37].
@@ -132,19 +149,22 @@ Proof.
 Qed.
 
 (* ------------------------------------------------------------ what the generator does with one value *)
+Lemma gsafe_value : gsafe compile_value_safe = true.
+Proof. vm_compute. reflexivity. Qed.
+
 Lemma value_safe_good : good_safe compile_value_safe = true.
 Proof. destruct compile_safe_parts as (_ & _ & S3). apply path_safe_ok_parts in S3. tauto. Qed.
 
 Lemma q_value_q v q : q_value v = Ok q ->
-  exists t, text_of v = Ok t /\ forallb valid_scalar t = true /\ qform q (encode t).
+  exists t, text_of v = Ok t /\ forallb valid_scalar t = true /\ sform q (encode t).
 Proof.
   unfold q_value. intros H. apply qps_ok in H. destruct H as (t & Ht & Hv & ->). exists t.
   split; [assumption|]. split; [assumption|].
-  apply qform_one; [apply value_safe_good|apply safe_sub_value|apply encode_bytes; assumption].
+  apply qform_one; [apply value_safe_good|apply gsafe_value|apply encode_bytes; assumption].
 Qed.
 
 Lemma qform_join qs ts :
-  Forall2 (fun q t => qform q (encode t)) qs ts -> qform (join [47] qs) (join [47] (map encode ts)).
+  Forall2 (fun q t => sform q (encode t)) qs ts -> sform (join [47] qs) (join [47] (map encode ts)).
 Proof.
   induction 1 as [|q t qs' ts' Hq Hr IH]; [constructor|].
   inversion Hr as [|q2 t2 qs2 ts2 Hq2 Hr2]; subst.
@@ -156,10 +176,10 @@ Qed.
 
 (* the quoted text of a value decodes to the UTF-8 of the text the value stands for *)
 Lemma gen_value_q b v q : gen_value b v = Ok q ->
-  exists t, val_text b v = Some t /\ forallb valid_scalar t = true /\ qform q (encode t).
+  exists t, val_text b v = Some t /\ forallb valid_scalar t = true /\ sform q (encode t).
 Proof.
   destruct v as [x|l shown].
-  - assert (G : q_value x = Ok q -> exists t, val_text b (KScalar x) = Some t /\ forallb valid_scalar t = true /\ qform q (encode t)).
+  - assert (G : q_value x = Ok q -> exists t, val_text b (KScalar x) = Some t /\ forallb valid_scalar t = true /\ sform q (encode t)).
     { intros H. apply q_value_q in H. destruct H as (t & Ht & Hv & Hq). exists t.
       split; [apply text_of_spec; assumption|auto]. }
     (* bytes are decoded first and quoted as str: the same computation as quoting the bytes *)
@@ -167,7 +187,7 @@ Proof.
   - cbn [gen_value val_text]. destruct b.
     + intros H. apply rbind_ok in H. destruct H as (qs & Hqs & H). inversion H; subst q. clear H. apply mapM_ok in Hqs.
       assert (HH : exists ts, map_opt spec_text l = Some ts /\ forallb (forallb valid_scalar) ts = true
-                              /\ Forall2 (fun q t => qform q (encode t)) qs ts).
+                              /\ Forall2 (fun q t => sform q (encode t)) qs ts).
       { induction Hqs as [|v q l' qs' Hq _ IH].
         - exists []. repeat split; constructor.
         - destruct IH as (ts & I1 & I2 & I3). apply q_value_q in Hq. destruct Hq as (t & Ht & Hv & Hq).
@@ -197,15 +217,15 @@ Proof.
 Qed.
 
 Lemma slot_q g kw d n q : build_newdict g kw = Ok d -> assoc n d = Some q ->
-  exists t, cap_of (p_star g) kw n = Some t /\ forallb valid_scalar t = true /\ qform q (encode t).
+  exists t, cap_of (p_star g) kw n = Some t /\ forallb valid_scalar t = true /\ sform q (encode t).
 Proof.
   intros Hd Hq. pose proof (newdict_assoc _ _ _ Hd n) as H. unfold cap_of. destruct (assoc n kw) as [v|].
   - destruct H as (q' & H1 & H2). rewrite H1 in Hq. inversion Hq; subst q'. apply gen_value_q in H2. exact H2.
   - congruence.
 Qed.
 
-Lemma lit_part_q safe s tp d x : path_safe_ok safe = true -> safe_sub safe = true ->
-  lit_part safe s = Ok tp -> format_part d tp = Ok x -> forallb valid_scalar s = true /\ qform x (encode s).
+Lemma lit_part_q safe s tp d x : path_safe_ok safe = true -> gsafe safe = true ->
+  lit_part safe s = Ok tp -> format_part d tp = Ok x -> forallb valid_scalar s = true /\ sform x (encode s).
 Proof.
   intros Hs Hsub H Hf. unfold lit_part in H. apply rbind_ok in H. destruct H as (q & Hq & H). inversion H; subst tp.
   cbn [format_part] in Hf. rewrite undouble_double in Hf. inversion Hf; subst x.
@@ -214,9 +234,9 @@ Proof.
   apply qform_one; auto. apply encode_bytes; assumption.
 Qed.
 
-Lemma safe_subs : safe_sub compile_prefix_safe = true /\ safe_sub compile_literal_safe = true.
+Lemma safe_subs : gsafe compile_prefix_safe = true /\ gsafe compile_literal_safe = true.
 Proof.
-  pose proof Facts_ok_safe_sets as HF. repeat (apply andb_true_iff in HF; destruct HF as [HF ?]). auto.
+  pose proof gsafe_facts as HF. repeat (apply andb_true_iff in HF; destruct HF as [HF ?]). auto.
 Qed.
 
 (* ------------------------------------------------------------ the text a pattern + values stand for (C17 side) *)
@@ -239,7 +259,7 @@ Lemma holes_q g kw d : build_newdict g kw = Ok d -> forall holes hs xs,
           end) holes = Ok hs ->
   Forall2 (fun t x => format_part d t = Ok x) (concat hs) xs ->
   exists t, holes_text (cap_of (p_star g) kw) holes = Some t /\ forallb valid_scalar t = true
-            /\ qform (concat xs) (encode t).
+            /\ sform (concat xs) (encode t).
 Proof.
   destruct compile_safe_parts as (_ & S2 & _). destruct safe_subs as (_ & B2).
   intros Hd. induction holes as [|[n l] holes IH]; intros hs xs Hm Hf.
@@ -269,7 +289,7 @@ Qed.
 (* Route.generate: the produced path is a quoted form of the UTF-8 of the pattern text with the
    values in place *)
 Theorem generate_q g kw u : generate g kw = Ok u ->
-  exists t, gtext g kw = Some t /\ forallb valid_scalar t = true /\ qform u (encode t).
+  exists t, gtext g kw = Some t /\ forallb valid_scalar t = true /\ sform u (encode t).
 Proof.
   destruct compile_safe_parts as (S1 & _ & _). destruct safe_subs as (B1 & _).
   unfold generate. intros H. apply rbind_ok in H. destruct H as (tpl & Htpl & H).
@@ -372,15 +392,15 @@ Theorem generate_decodes p kw u : generate (to_pattern p) kw = Ok u ->
     /\ unquote u = encode (C01.render (C01.items p) caps)
     /\ Utf8.decode (unquote u) = Some (C01.render (C01.items p) caps).
 Proof.
-  intros H. apply generate_q in H. destruct H as (t & Hg & Hv & Hq). rewrite gtext_to_pattern in Hg.
+  intros H. apply generate_q in H. destruct H as (t & Hg & Hv & Hq). apply sform_qform in Hq. rewrite gtext_to_pattern in Hg.
   destruct (kw_caps p kw) as [caps|]; [|discriminate]. cbn [obind] in Hg. inversion Hg; subst t. exists caps.
-  pose proof (qform_unquote _ _ Hq) as Hu. repeat split; auto. rewrite Hu. apply decode_encode; assumption.
+  pose proof (qform_unquote _ _ _ Hq) as Hu. repeat split; auto. rewrite Hu. apply decode_encode; assumption.
 Qed.
 
 Theorem generate_ascii g kw u : generate g kw = Ok u ->
   Forall gen_char u /\ Forall ascii u /\ ~ In 63 u /\ ~ In 35 u.
 Proof.
-  intros H. apply generate_q in H. destruct H as (t & _ & _ & Hq). apply qform_chars in Hq.
+  intros H. apply generate_q in H. destruct H as (t & _ & _ & Hq). apply sform_qform in Hq. apply qform_chars in Hq.
   split; [exact Hq|]. rewrite Forall_forall in Hq. split; [|split].
   - apply Forall_forall. intros c Hc. apply gen_char_ascii. auto.
   - intros Hc. destruct (gen_char_not_delim _ (Hq _ Hc)). congruence.
